@@ -59,14 +59,17 @@ var c18tpls = []c18tpl{
 	{src: `import "util"`, gives: []string{"util"}},
 	{src: `import "ext"`, gives: []string{"ext"}},
 	{src: `util.Set(x)`, needs: []string{"util", "x"}},
+	{src: `util.Base += x`, needs: []string{"util", "x"}},
 	{src: `ext.Bump()`, needs: []string{"ext"}},
-	{src: `util.Count() + ext.Twice(2)`, needs: []string{"util", "ext"}, final: true},
+	{src: `util.Count() + ext.Twice(2) + util.Base + util.Inits*1000`, needs: []string{"util", "ext"}, final: true},
 	// block-scoped top-level locals of other types than int (a later chunk's frame must not inherit them)
 	{src: "if f := 1.5; f > 1 {\n\ty += 1\n}", needs: []string{"y"}, block: true},
 	{src: "for j := 0; j < 4; j++ {\n\ty += j / 2\n}", needs: []string{"y"}, block: true},
 	{src: "for _, w := range []string{\"ab\"} {\n\tk := len(w) / 3\n\ty += k + 1\n}", needs: []string{"y"}, block: true},
 	// a struct type of a package that a later chunk loads again
 	{src: `fmt.Println(util.New(x), util.New(1).X)`, needs: []string{"fmt", "util", "x"}},
+	// a declaration whose last token is a closing parenthesis (a chunk may end right there, without a newline)
+	{src: `var cb func(int)`, gives: []string{"cb"}},
 	{src: `x + y`, needs: []string{"x", "y"}, final: true},
 	{src: `f(2) + c`, needs: []string{"f", "c"}, final: true},
 	{src: `t.M()`, needs: []string{"t", "M"}, final: true},
@@ -75,10 +78,12 @@ var c18tpls = []c18tpl{
 
 var c18globals = []string{"x", "y", "z", "c", "s", "i"}
 
-var c18fs = goat.FS(map[string]string{
-	"util/util.go": "package util\n\nvar last any\nvar count int\n\nfunc Set(v int) {\n\tlast = v\n\tcount++\n}\n\nfunc Last() any {\n\treturn last\n}\n\nfunc Count() int {\n\treturn count\n}\n\ntype P struct {\n\tX int\n\tY int\n}\n\nfunc New(a int) *P {\n\treturn &P{X: a, Y: a + 1}\n}\n",
+var c18files = map[string]string{
+	"util/util.go": "package util\n\nvar last any\nvar count int\n\nvar Base = 10\nvar Inits int\n\nfunc init() {\n\tInits++\n}\n\nfunc Set(v int) {\n\tlast = v\n\tcount++\n}\n\nfunc Last() any {\n\treturn last\n}\n\nfunc Count() int {\n\treturn count\n}\n\ntype P struct {\n\tX int\n\tY int\n}\n\nfunc New(a int) *P {\n\treturn &P{X: a, Y: a + 1}\n}\n",
 	"ext/ext.go":   "package ext\n\nimport \"util\"\n\nfunc Bump() {\n\tutil.Set(99)\n}\n\nfunc Twice(a int) int {\n\treturn a * 2\n}\n",
-})
+}
+
+var c18fs = goat.FS(c18files)
 
 // c18valid applies the def-before-use filter.
 func c18valid(seq []int) bool {
@@ -161,15 +166,22 @@ func c18eval(chunks []string) c18obs {
 func c18chunks(seq []int, cut int) []string {
 	var chunks []string
 	cur := c18tpls[seq[0]].src
+	// a chunk ends with a newline or right after its last token, in turn (the whole program always ends with a newline)
+	end := func() string {
+		if (len(chunks)+cut)%2 == 0 {
+			return "\n"
+		}
+		return ""
+	}
 	for i := 1; i < len(seq); i++ {
 		if cut>>(i-1)&1 == 1 {
-			chunks = append(chunks, cur+"\n")
+			chunks = append(chunks, cur+end())
 			cur = c18tpls[seq[i]].src
 		} else {
 			cur += "\n" + c18tpls[seq[i]].src
 		}
 	}
-	return append(chunks, cur+"\n")
+	return append(chunks, cur+end())
 }
 
 type c18case struct {
